@@ -19,3 +19,5 @@ def run(prog, rep):
     _rk3.run_handles_only(prog, rep)
     from ..rules import r_frame as _rfr
     _rfr.run_front(prog, rep)
+    from ..rules import r_io as _rio8
+    _rio8.run_append(prog, rep)
